@@ -3,6 +3,7 @@ package controllerv1
 import (
 	"context"
 	"encoding/json"
+	"fmt"
 	retry "github.com/avast/retry-go"
 	"github.com/metrico/qryn/writer/config"
 	customErrors "github.com/metrico/qryn/writer/utils/errors"
@@ -160,6 +161,12 @@ func doPush(req helpers.SizeGetter, insertMode int, svc service.IInsertServiceV2
 	retryDelay := time.Duration(config.Cloki.Setting.SYSTEM_SETTINGS.RetryTimeoutS) * time.Second
 	// Use the retry-go library to attempt the request up to MaxRetries times.
 	go func() {
+		defer func() {
+			if r := recover(); r != nil {
+				logger.Error("panic while pushing: ", r)
+				p.Done(0, fmt.Errorf("panic: %v", r))
+			}
+		}()
 		err := retry.Do(
 			func() error {
 				//req.ResetResponse()
